@@ -40,7 +40,7 @@ CORE_TKINDS = ("int", "float", "str", "bool", "optional", "literal", "list", "un
 CORE_DKINDS = ("absent", "int", "negint", "zero", "float", "negfloat", "smallfloat", "bool", "str", "strspace",
                "strtilde", "strdot", "imag")
 RANDOM_TKINDS = CORE_TKINDS + ("complex",)  # scalar whose default text ('1j') reads correctly only once the type is known
-PROBE_DKINDS = ("none", "code", "emptystr")
+PROBE_DKINDS = ("none", "code", "emptystr", "strbad")
 
 
 def _matrix():
@@ -65,7 +65,8 @@ MATRIX = _matrix()
 
 def streams(ctx):
     return [("matrix", len(MATRIX)), ("random", ctx.scale(250, 6000)), ("zero_params", ctx.scale(12, 100)),
-            ("probe", ctx.scale(60, 600)), ("longdoc", ctx.scale(120, 2500)), ("indented", ctx.scale(120, 2500))]
+            ("probe", ctx.scale(60, 600)), ("longdoc", ctx.scale(120, 2500)), ("indented", ctx.scale(120, 2500)),
+            ("shapes", ctx.scale(200, 4000)), ("nodoc", ctx.scale(100, 2000))]
 
 
 def _strip_for_config(ir, et, edd_emit):
@@ -172,6 +173,13 @@ def classify(ir, cfg, d):
     elif edd and where == "parse" and how in ("SyntaxError", "ValueError") and (
             "code" in dkinds or "strdot" in dkinds):
         mech = "docstring.default-cut-at-dot-or-unquoted"
+    if mech is None and style == "rest" and not et and where == "names" and how == "missing" and any(
+            not p.get("doc") for p in ir["params"].values()):
+        mech = "docstring.rest.no-types.description-less-name-dropped"
+    if mech is None and edd and "strbad" in dkinds and (
+            (where in ("param", "return") and dk == "strbad" and field in ("default", "doc"))
+            or (where == "parse" and how in ("SyntaxError", "ValueError"))):
+        mech = "docstring.str-default-with-quote-backslash-backtick"
     if mech is not None:
         return mech + "|" + generic + "," + detail
     return generic + "|" + detail
@@ -210,6 +218,22 @@ def gen_case(ctx, stream, idx):
     if stream == "indented":
         return irgen.rand_ir(r, type_kinds=CORE_TKINDS, default_kinds=CORE_DKINDS, nparams=r.randint(1, 5),
                              doc_kinds=("plain", "plain", "long"))
+    if stream == "shapes":
+        # data shapes: nested / single-member / spaced-member types, str defaults made of delimiter characters,
+        # descriptions with colons, brackets, quotes, '#', '%', braces
+        return irgen.rand_ir(r, type_kinds=CORE_TKINDS + ("nested", "nested", "str", "literaldq"), nparams=r.randint(1, 6),
+                             default_kinds=CORE_DKINDS + ("strodd", "strodd"), doc_kinds=("plain", "punct", "punct"))
+    if stream == "nodoc":
+        # parameters without description (no default either: a default is carried by the description's prose)
+        ir = irgen.rand_ir(r, type_kinds=CORE_TKINDS, nparams=r.randint(1, 5), default_kinds=CORE_DKINDS,
+                           with_return=r.random() < 0.3)
+        for p in ir["params"].values():
+            if "default" not in p and r.random() < 0.6:
+                if r.random() < 0.5:
+                    del p["doc"]
+                else:
+                    p["doc"] = ""
+        return ir
     if stream == "probe":
         return irgen.rand_ir(r, nparams=r.randint(1, 4), default_kinds=PROBE_DKINDS + ("absent", "int", "str"))
     raise ValueError(stream)
